@@ -62,7 +62,8 @@ class C05(SessionCheck):
             for rep in range(2):
                 out.append({'kind': 'hello-doc', 'profile': pf, 'extras': rng.sample(nasty, rng.randint(0, 4))})
         for what in ('silent', 'slow-complete', 'drip'):
-            out.append({'kind': 'hello-timing', 'sc': {'transport': 'ssh', 'profile': 'default', 'what': what, 'timeout': 1.2}})
+            # (the slow-but-complete hello takes ~0.3 s; its timeout is generous so that a loaded machine cannot turn it into an alarm)
+            out.append({'kind': 'hello-timing', 'sc': {'transport': 'ssh', 'profile': 'default', 'what': what, 'timeout': 6.0 if what == 'slow-complete' else 1.2}})
         return out
 
     def run_hello_timing(self, case):
@@ -101,7 +102,7 @@ class C05(SessionCheck):
         srv.serve = serve
         res = {}
         try:
-            st, val, dt = FS.run_with_timeout(lambda: e2e.connect(srv, sc, timeout=sc['timeout']), sc['timeout'] + 8)
+            st, val, dt = FS.run_with_timeout(lambda: e2e.connect(srv, sc, timeout=sc['timeout']), sc['timeout'] + 12)
             res['connect'] = st if st != 'exc' else 'exc:' + type(val).__name__
             res['dt'] = dt
             if st == 'ok':
@@ -262,7 +263,7 @@ class C05(SessionCheck):
             if not str(io.get('connect', '')).startswith('exc:'):
                 return ('C05:connect-hangs', 'no complete <hello> ever arrived (%s server), connect(timeout=%.1f) gave %s after %.1f s' % (
                     sc['what'], sc['timeout'], io.get('connect'), io.get('dt', -1)))
-            if io.get('dt', 0) > sc['timeout'] + 3.5:
+            if io.get('dt', 0) > sc['timeout'] + 8:
                 return ('C05:connect-hangs', 'connect(timeout=%.1f) against a %s server failed only after %.1f s' % (sc['timeout'], sc['what'], io['dt']))
             return None
         if case.get('kind') == 'connect':
